@@ -15,13 +15,20 @@ const SIZES: [usize; 4] = [0, 5, 256, 70_000];
 const IDLENS: [usize; 3] = [1, 5, 255];
 
 fn payload_shapes() -> Vec<Vec<usize>> {
+    payload_shapes_of(&SIZES)
+}
+
+/// further size alphabets walked by the thorough tier
+const ALT_SIZES: [[usize; 4]; 3] = [[1, 255, 257, 65_536], [0, 254, 300, 131_072], [2, 256, 1000, 200_000]];
+
+fn payload_shapes_of(sizes: &[usize; 4]) -> Vec<Vec<usize>> {
     let mut v = Vec::new();
     for n in 1..=4u32 {
         for code in 0..4usize.pow(n) {
             let mut c = code;
             let mut shape = Vec::new();
             for _ in 0..n {
-                shape.push(SIZES[c % 4]);
+                shape.push(sizes[c % 4]);
                 c /= 4;
             }
             v.push(shape);
@@ -534,6 +541,22 @@ impl Prop for C07 {
         }
         for chunk in shapes.chunks(20) {
             v.push(json!({"kind": "req_batch", "shapes": chunk}));
+        }
+        if tier == Tier::Thorough {
+            for alt in &ALT_SIZES {
+                let shapes = payload_shapes_of(alt);
+                for pre in pres.iter() {
+                    for chunk in shapes.chunks(20) {
+                        v.push(json!({"kind": "rep_batch", "prefix": pre, "shapes": chunk}));
+                    }
+                }
+                for chunk in shapes.chunks(20) {
+                    v.push(json!({"kind": "req_batch", "shapes": chunk}));
+                    for ident in ["none", "empty", "255"] {
+                        v.push(json!({"kind": "chain_batch", "ident": ident, "clients": 2, "shapes": chunk}));
+                    }
+                }
+            }
         }
         v.push(json!({"kind": "degenerate"}));
         for ident in ["none", "empty", "1", "255"] {
